@@ -31,6 +31,17 @@ pub trait Hooks: Send + Sync {
     fn short_read(&self, n: usize) -> usize {
         n
     }
+    /// An operating-system service is about to be asked for something it may refuse (a memory
+    /// mapping, ...): does it fail this time? ("failing system calls" as an environment fault)
+    fn fault(&self, _site: &'static str) -> bool {
+        false
+    }
+    /// A timed wait (`recv_timeout`, `wait_timeout`, ...) found nothing to return yet: does the
+    /// timeout elapse before anything arrives? The simulator has no wall clock - relative speeds
+    /// are arbitrary, so any timed wait may time out whenever the simulator says so.
+    fn timeout_fires(&self, _site: &'static str) -> bool {
+        false
+    }
     /// An output I/O operation is about to happen.
     fn io(&self, _op: &io::IoOp) -> io::IoDecision {
         io::IoDecision::Proceed
@@ -71,6 +82,24 @@ pub fn short_read(n: usize) -> usize {
     match hooks() {
         None => n,
         Some(h) => h.short_read(n).clamp(1, n),
+    }
+}
+
+/// Environment fault point: whether the system call at `site` is made to fail.
+#[inline]
+pub fn fault(site: &'static str) -> bool {
+    match hooks() {
+        None => false,
+        Some(h) => h.fault(site),
+    }
+}
+
+/// Simulated time: whether a timed wait that has nothing to return times out now.
+#[inline]
+pub fn timeout_fires(site: &'static str) -> bool {
+    match hooks() {
+        None => false,
+        Some(h) => h.timeout_fires(site),
     }
 }
 
